@@ -17,6 +17,7 @@ type cstep struct {
 	present string
 	cookie  string
 	ops     []op
+	conn    int // 1, 2: serve on that reused RequestCtx ("connection"); 0: a fresh one
 }
 
 func (h *hist) resolve(ci int, ref string) string {
@@ -56,6 +57,10 @@ func runFixed(e *ev.Env, c *ev.Case, cfg cfgT, nclients int, steps []cstep) *his
 	}
 	h := newHist(e, c, cfg, kinds, "c0ffee")
 	defer h.close()
+	h.useConns(2, nil)
+	if h.vs != nil && keepKeyRef {
+		h.vs.KeepKeyRef = true
+	}
 	for _, s := range steps {
 		if s.adv > 0 {
 			time.Sleep(s.adv)
@@ -64,6 +69,7 @@ func runFixed(e *ev.Env, c *ev.Case, cfg cfgT, nclients int, steps []cstep) *his
 				e.Inconclusive("corpus step of " + c.ID + " coincides with a tick of the coarse clock")
 			}
 		}
+		h.nextConn = s.conn
 		rq := &request{Client: s.client, MW: s.mw, Presented: h.resolve(s.client, s.present), Class: "scripted", Cookie: h.resolve(s.client, s.cookie)}
 		if s.present == "" {
 			rq.Class = "none"
@@ -79,6 +85,9 @@ func runFixed(e *ev.Env, c *ev.Case, cfg cfgT, nclients int, steps []cstep) *his
 	h.finish()
 	return h
 }
+
+// keepKeyRef: fixed vstore histories keep the caller's key strings by reference.
+var keepKeyRef = true
 
 const (
 	sec = time.Second
@@ -190,6 +199,29 @@ func corpus(e *ev.Env) {
 					{mw: true, present: "@jar", ops: []op{set("k3", "v0.4"), k("destroy")}},
 					{present: "@prev", ops: []op{get("k3")}},
 				})
+			})
+			// connection reuse: two clients alternate on two reused RequestCtx objects; an id that
+			// aliased a request buffer would change under the storage's feet
+			e.Corpus("requestctx-reuse-"+name, func(c *ev.Case) {
+				cfg := base
+				cfg.Idle = 5 * sec
+				for _, mw := range []bool{true, false} {
+					fin := func(ops ...op) []op {
+						if !mw {
+							ops = append(ops, k("save"))
+						}
+						return ops
+					}
+					runFixed(e, c, cfg, 2, []cstep{
+						{client: 0, conn: 1, mw: mw, ops: fin(set("k0", "v0.1"))},
+						{client: 1, conn: 2, mw: mw, ops: fin(set("k0", "v1.1"))},
+						{client: 0, conn: 1, mw: mw, present: "@jar", ops: fin(get("k0"), set("k1", "v0.2"))},
+						{client: 1, conn: 1, mw: mw, present: "@jar", ops: fin(get("k0"), get("k1"), set("k2", "v1.2"))},
+						{client: 0, conn: 2, mw: mw, present: "@jar", ops: fin(get("k0"), get("k1"), get("k2"))},
+						{client: 1, conn: 2, mw: mw, present: "@jar", ops: fin(get("k0"), get("k2"))},
+						{client: 0, conn: 1, mw: mw, present: "@jar", ops: fin(get("k0"), get("k1"))},
+					})
+				}
 			})
 			// pooled Session objects: unsaved changes and other sessions' data never reappear
 			e.Corpus("release-reuse-"+name, func(c *ev.Case) {
